@@ -101,6 +101,9 @@ def decorate(scs, *, seed, calls_choices=(("invoke",), ("stream",), ("invoke", "
             sc["state"] = True
             sc["post"] = rnd.random() < 0.6
             sc["hmod"] = rnd.random() < 0.5
+            sc["shand"] = rnd.random() < 0.4
+            if len(sc["nodes"]) > 1 and "delay" not in sc and rnd.random() < 0.7:
+                sc["delay"] = {n: rnd.randrange(4) for n in sc["nodes"]}
             if rnd.random() < 0.3:
                 sc["smod"] = 1 + rnd.randrange(2)
             for inner in (sc.get("sub") or {}).values():
